@@ -96,11 +96,17 @@ pub struct SearchRun {
 /// Run the real search on the calling thread. `expiry`: index of the first clock consultation that
 /// answers "expired" (None = never), `stop_depth`: stop after that iteration (0 = never).
 pub fn run_search(board: &BoardState, table: &DrawTable, expiry: Option<u64>, stop_depth: u8) -> SearchRun {
+    run_search_with_allowance(board, table, expiry, stop_depth, 1_000_000)
+}
+
+/// the same with the numeric allowance handed to the search chosen by the caller (under the virtual clock the
+/// number decides nothing: whatever the search derives from it must not change what it reports)
+pub fn run_search_with_allowance(board: &BoardState, table: &DrawTable, expiry: Option<u64>, stop_depth: u8, allowance_ms: u128) -> SearchRun {
     assert!(expiry.is_some() || stop_depth > 0, "an unexpired search needs a depth stop");
     let (tx, rx) = mpsc::channel();
     let mut t = table.clone();
     crate::verif::arm_thread(expiry, stop_depth, true);
-    let r = catch_unwind(AssertUnwindSafe(|| get_best_move(board, &mut t, Instant::now(), 1_000_000, &tx)));
+    let r = catch_unwind(AssertUnwindSafe(|| get_best_move(board, &mut t, Instant::now(), allowance_ms, &tx)));
     let queries = crate::verif::clock_queries();
     let infos = crate::verif::take_capture();
     crate::verif::disarm_thread();
@@ -384,4 +390,47 @@ pub fn sweep_expiry(rep: &Report, roots: &[Root], depth_of: &dyn Fn(&Root) -> u8
                 .set("distinct_outcomes_over_all_expiry_points", J::Int(distinct_prefixes.load(Ordering::Relaxed) as i128)),
         );
     }
+}
+
+
+/// C07, last clause, in its literal reading: a larger (or any other) numeric allowance never changes the
+/// sequence of improvements. The un-expired run of each root is repeated for a grid of allowances — every
+/// {1,2,3,5} x 10^e up to 10^12 with its two neighbours, every 2^k with its neighbours up to 2^64, u128::MAX —
+/// and must report and hand back exactly what the baseline does.
+pub fn allowance_independence(rep: &Report, roots: &[Root], depth_of: &dyn Fn(&Root) -> u8) -> u64 {
+    let depths: Vec<u8> = roots.iter().map(|r| depth_of(r)).collect();
+    let mut grid: Vec<u128> = vec![u128::MAX, u64::MAX as u128, (u64::MAX as u128) + 1];
+    for e in 0..=12u32 {
+        for m in [1u128, 2, 3, 5] {
+            let v = m * 10u128.pow(e);
+            grid.extend_from_slice(&[v.saturating_sub(1), v, v + 1]);
+        }
+    }
+    for k in (4..=64u32).step_by(2) {
+        let v = 1u128 << k;
+        grid.extend_from_slice(&[v - 1, v, v + 1]);
+    }
+    grid.sort();
+    grid.dedup();
+    grid.retain(|v| *v != 0); // a zero allowance means 'answer at once' by design: not a size of allowance
+    let jobs: Vec<(usize, usize)> = (0..roots.len()).flat_map(|r| (0..grid.len()).map(move |g| (r, g))).collect();
+    let base: Vec<SearchRun> = crate::e4_session::run_parallel(roots.len(), |i| run_search(&roots[i].board, &roots[i].table, None, depths[i]));
+    crate::e4_session::run_parallel(jobs.len(), |j| {
+        let (r, g) = jobs[j];
+        let root = &roots[r];
+        let run = run_search_with_allowance(&root.board, &root.table, None, depths[r], grid[g]);
+        let a: Vec<String> = base[r].infos.iter().map(|l| strip_time(l)).collect();
+        let b: Vec<String> = run.infos.iter().map(|l| strip_time(l)).collect();
+        let same_sent = base[r].sent.len() == run.sent.len() && base[r].sent.iter().zip(run.sent.iter()).all(|(x, y)| boards_equal(x, y));
+        if a != b || !same_sent || run.panicked.is_some() {
+            let first = a.iter().zip(b.iter()).position(|(x, y)| x != y).unwrap_or(a.len().min(b.len()));
+            rep.fail(
+                "C07",
+                "improvements-depend-on-the-size-of-the-allowance",
+                format!("{}: with an allowance of {} ms the un-expired search reports {:?} where it reports {:?} with 1000000 ms (line {} of {}/{}; panic: {:?})", root.name, grid[g], b.get(first), a.get(first), first + 1, b.len(), a.len(), run.panicked),
+                case_json(root, None, depths[r]).set("allowance_ms", J::s(&grid[g].to_string())),
+            );
+        }
+    });
+    jobs.len() as u64
 }
